@@ -9,6 +9,7 @@ pub mod c09;
 pub mod c11;
 pub mod c12;
 pub mod c13;
+pub mod c14;
 pub mod c15;
 pub mod c17;
 pub mod common;
@@ -23,6 +24,7 @@ pub fn run(id: &str, tier: Tier) -> i32 {
         "C11" => c11::run(tier),
         "C12" => c12::run(tier),
         "C13" => c13::run(tier),
+        "C14" => c14::run(tier),
         "C15" => c15::run(tier),
         "C17" => c17::run(tier),
         _ => machinery(&format!("no check for property {id}")),
@@ -44,6 +46,7 @@ pub fn replay(id: &str, path: &str) -> i32 {
             "C11" => c11::replay(case),
             "C12" => c12::replay(case),
             "C13" => c13::replay(case),
+            "C14" => c14::replay(case),
             "C15" => c15::replay(case),
             "C17" => c17::replay(case),
             _ => machinery(&format!("no replay for property {id}")),
